@@ -175,6 +175,13 @@ func runAlpha(p *Property, tags string, modes ...string) []mutantResult {
 			out = append(out, mutantResult{ID: id, Verdict: "SKIPPED", Detail: "the property loads no source packages"})
 			continue
 		}
+		if d := os.Getenv("TVC_ALPHA_DUMP"); d != "" {
+			for name, src := range overlay {
+				out := d + "/" + mode + strings.TrimPrefix(name, repoDir)
+				_ = os.MkdirAll(out[:strings.LastIndex(out, "/")], 0o755)
+				_ = os.WriteFile(out, src, 0o644)
+			}
+		}
 		c2 := runRules(p, "quick", tags, overlay)
 		res := mutantResult{ID: id, Verdict: "QUIET", Detail: fmt.Sprintf("%d variables renamed in %d files", n, len(overlay))}
 		var alarms []string
